@@ -18,13 +18,14 @@ Definition blocked (g : gst) (l : local) : bool :=
   end.
 
 Section Enabled.
+Variable early : bool.
 Variable absorb_n : nat.
 Variable react : nat -> list msg * bool.
 
 Lemma fin_some : forall g r k e, exists x, fin react g r k e = Some x.
 Proof. intros. unfold fin. destruct (ret react (g_evd g) r k) as [[p k'] e']. eauto. Qed.
 
-Lemma step_enabled : forall g l, blocked g l = false -> exists x, step absorb_n react CRun g l = Some x.
+Lemma step_enabled : forall g l, blocked g l = false -> exists x, step early absorb_n react CRun g l = Some x.
 Proof.
   intros g [p k] Hb. unfold blocked in Hb. simpl in Hb. unfold step. simpl.
   destruct p; try discriminate; unfold goto;
@@ -62,9 +63,10 @@ Variable react : nat -> list msg * bool.
 Variable ok : label -> bool.
 Variables smode emode : bool.
 
-Notation Step := (Step absorb_n react).
-Notation sys_step := (sys_step absorb_n react).
-Notation reachable_if := (reachable_if absorb_n react).
+(* StartInternalThread as repaired *)
+Notation Step := (Step false absorb_n react).
+Notation sys_step := (sys_step false absorb_n react).
+Notation reachable_if := (reachable_if false absorb_n react).
 
 Ltac destr_k k := destruct k as [|[] [|? ?]]; try contradiction.
 Ltac kill_ret :=
@@ -99,7 +101,7 @@ Proof.
     + unfold sh_wait. simpl. destruct (pc_of_op o); try discriminate; destruct c; discriminate.
     + exact Sv.
   - (* a user thread's step *)
-    destruct (step absorb_n react c (s_g s) (s_l s t)) as [[[g' l'] e']|] eqn:Hst; [|discriminate]. inv H.
+    destruct (step false absorb_n react c (s_g s) (s_l s t)) as [[[g' l'] e']|] eqn:Hst; [|discriminate]. inv H.
     apply step_spec in Hst.
     destruct (s_l s t) as [p k] eqn:El.
     assert (Hu : upc_ok t (mkL p k)) by (rewrite <- El; apply (wf_upc _ _ _ W)).
@@ -122,7 +124,7 @@ Proof.
     + (* another thread's step: it can only be sending *)
       intros Hw. specialize (Sv Hw).
       assert (Hsame : g_ist g' = g_ist (s_g s) /\ g_il g' = g_il (s_g s)).
-      { destruct (Step_running _ _ _ _ _ _ _ _ Hst) as [[n Hn] | [Hj | [Hx | (R1 & R2 & R3 & R4)]]]; simpl in *; auto;
+      { destruct (Step_running _ _ _ _ _ _ _ _ _ Hst) as [[n Hn] | [Hj | [Hx | (R1 & R2 & R3 & R4)]]]; simpl in *; auto;
           subst p; unfold upc_ok in Hu; simpl in Hu; try contradiction.
         - destruct k; [congruence | contradiction].
         - destruct k as [|[] [|]]; try contradiction; congruence. }
@@ -131,7 +133,7 @@ Proof.
       eapply Step_user_qi_grows; eauto.
   - (* the internal thread's step *)
     destruct (g_ist (s_g s)) eqn:Hl; try discriminate.
-    destruct (step absorb_n react c (s_g s) (g_il (s_g s))) as [[[g' l'] e']|] eqn:Hst; [|discriminate]. inv H.
+    destruct (step false absorb_n react c (s_g s) (g_il (s_g s))) as [[[g' l'] e']|] eqn:Hst; [|discriminate]. inv H.
     apply step_spec in Hst.
     destruct (g_il (s_g s)) as [p k] eqn:El.
     assert (Hi : ipc_ok (mkL p k)) by (rewrite <- El; apply (wf_ipc _ _ _ W); exact Hl).
@@ -178,13 +180,14 @@ End Shutdown.
 (* ---------- several steps ---------- *)
 
 Section Multi.
+Variable early : bool.
 Variable absorb_n : nat.
 Variable react : nat -> list msg * bool.
 Variable ok : label -> bool.
 Variables smode emode : bool.
 
-Notation sys_step := (sys_step absorb_n react).
-Notation reachable_if := (reachable_if absorb_n react).
+Notation sys_step := (sys_step early absorb_n react).
+Notation reachable_if := (reachable_if early absorb_n react).
 
 Inductive steps_if : sys -> sys -> Prop :=
 | steps_refl : forall s, steps_if s s
@@ -219,8 +222,8 @@ Theorem fifo_no_overtaking : forall s s' c,
     got ++ c_q (ch (s_g s') c) = c_q (ch (s_g s) c) ++ more.
 Proof.
   intros s s' c R St.
-  pose proof (reachable_fifo _ _ _ _ _ _ R c) as F.
-  pose proof (reachable_fifo _ _ _ _ _ _ (steps_reachable _ _ St R) c) as F'.
+  pose proof (reachable_fifo _ _ _ _ _ _ _ R c) as F.
+  pose proof (reachable_fifo _ _ _ _ _ _ _ (steps_reachable _ _ St R) c) as F'.
   destruct (steps_hist _ _ St c) as (a & b & Ea & Eb).
   exists b, a. repeat split; auto.
   rewrite Ea, Eb, F in F'. rewrite <- !app_assoc in F'. apply app_inv_head in F'. auto.
@@ -237,21 +240,21 @@ Variable absorb_n : nat.
 Variable react : nat -> list msg * bool.
 Variable ok : label -> bool.
 Variables smode emode : bool.
-Hypothesis Hmode : emode = true -> forall lab, ok lab = true -> owner_sends_ci lab = true.
 
-Notation sys_step := (sys_step absorb_n react).
-Notation reachable_if := (reachable_if absorb_n react).
+(* StartInternalThread as repaired *)
+Notation sys_step := (sys_step false absorb_n react).
+Notation reachable_if := (reachable_if false absorb_n react).
 Notation R := (reachable_if ok smode emode).
 
 Lemma int_enabled : forall s, g_ist (s_g s) = ILive -> blocked (s_g s) (g_il (s_g s)) = false ->
   exists x, sys_step s (LStep I CRun) = Some x.
 Proof.
-  intros s Hl Hb. simpl. rewrite Hl. destruct (step_enabled absorb_n react _ _ Hb) as [[[g' l'] e] Hx]. rewrite Hx. eauto.
+  intros s Hl Hb. simpl. rewrite Hl. destruct (step_enabled false absorb_n react _ _ Hb) as [[[g' l'] e] Hx]. rewrite Hx. eauto.
 Qed.
 
 Lemma user_enabled : forall s t, blocked (s_g s) (s_l s t) = false -> exists x, sys_step s (LStep (U t) CRun) = Some x.
 Proof.
-  intros s t Hb. simpl. destruct (step_enabled absorb_n react _ _ Hb) as [[[g' l'] e] Hx]. rewrite Hx. eauto.
+  intros s t Hb. simpl. destruct (step_enabled false absorb_n react _ _ Hb) as [[[g' l'] e] Hx]. rewrite Hx. eauto.
 Qed.
 
 Lemma ipc_looks_unblocked : forall g l evd, ipc_ok l -> will_look evd (l_pc l) = true -> blocked g l = false.
@@ -282,7 +285,7 @@ Theorem no_lost_wakeup_internal : forall s,
   c_q (g_ci (s_g s)) <> [] ->
   readable (s_g s) CI = true \/ exists t, is_pend_i (l_pc (s_l s t)) = true.
 Proof.
-  intros s Rs Hl Hp Hq. pose proof (reachable_wake absorb_n react ok smode emode Hmode s Rs) as Wk.
+  intros s Rs Hl Hp Hq. pose proof (reachable_wake absorb_n react ok smode emode s Rs) as Wk.
   apply (wk_ai _ Wk); auto. destruct Hp as [[w ->] | ->]; reflexivity.
 Qed.
 
@@ -293,7 +296,7 @@ Theorem no_lost_wakeup_owner : forall s w,
   readable (s_g s) CO = true \/ (exists t, l_pc (s_l s t) = PSendSig CO true) \/
   (g_ist (s_g s) = ILive /\ l_pc (g_il (s_g s)) = PSendSig CO true).
 Proof.
-  intros s w Rs Hp Hq. pose proof (reachable_wake absorb_n react ok smode emode Hmode s Rs) as Wk.
+  intros s w Rs Hp Hq. pose proof (reachable_wake absorb_n react ok smode emode s Rs) as Wk.
   assert (P : parked_o s = true) by (unfold parked_o; rewrite Hp; reflexivity).
   destruct (wk_ao _ Wk P Hq) as [A | [[t B] | [C D]]]; auto.
   - right. left. exists t. destruct (l_pc (s_l s t)); try discriminate. destruct c; try discriminate. destruct first; [reflexivity | discriminate].
@@ -308,8 +311,8 @@ Theorem internal_never_stuck : forall s,
   (exists t x, is_pend_i (l_pc (s_l s t)) = true /\ sys_step s (LStep (U t) CRun) = Some x).
 Proof.
   intros s Rs Hl Hq.
-  pose proof (reachable_wake absorb_n react ok smode emode Hmode s Rs) as Wk.
-  pose proof (reachable_wf absorb_n react ok smode emode s Rs) as W.
+  pose proof (reachable_wake absorb_n react ok smode emode s Rs) as Wk.
+  pose proof (reachable_wf false absorb_n react ok smode emode s Rs) as W.
   pose proof (wf_ipc _ _ _ W Hl) as Hi.
   destruct (will_look (g_evd (s_g s)) (l_pc (g_il (s_g s)))) eqn:Hw.
   - left. apply int_enabled; auto. eapply ipc_looks_unblocked; eauto.
@@ -343,7 +346,7 @@ Proof.
     destruct (allowed t o) eqn:Ha; [|discriminate]. inv Hb.
     unfold J_inv in *. simpl. unfold upd. destruct (Nat.eqb_spec 0 t) as [<- | Ht]; [|exact Jv].
     simpl. destruct o; simpl; discriminate.
-  - destruct (step absorb_n react c (s_g s) (s_l s t)) as [[[g' l'] e']|] eqn:Hst; [|discriminate]. inv H.
+  - destruct (step false absorb_n react c (s_g s) (s_l s t)) as [[[g' l'] e']|] eqn:Hst; [|discriminate]. inv H.
     apply step_spec in Hst.
     destruct (s_l s t) as [p k] eqn:El.
     assert (Hu : upc_ok t (mkL p k)) by (rewrite <- El; apply (wf_upc _ _ _ W)).
@@ -358,18 +361,18 @@ Proof.
         | Hr : (_, _, _) = (_, _, _) |- _ => inv Hr
         end; try discriminate.
     + intros Hq. specialize (Jv Hq).
-      destruct (Step_running _ _ _ _ _ _ _ _ Hst) as [[n Hn] | [Hj | [Hx | (R1 & _)]]]; simpl in *;
+      destruct (Step_running _ _ _ _ _ _ _ _ _ Hst) as [[n Hn] | [Hj | [Hx | (R1 & _)]]]; simpl in *;
         try (subst p; unfold upc_ok in Hu; simpl in Hu; try contradiction).
       * destruct k; [congruence | contradiction].
       * destruct k as [|[] [|]]; try contradiction; congruence.
       * congruence.
   - destruct (g_ist (s_g s)) eqn:Hl; try discriminate.
-    destruct (step absorb_n react c (s_g s) (g_il (s_g s))) as [[[g' l'] e']|] eqn:Hst; [|discriminate]. inv H.
+    destruct (step false absorb_n react c (s_g s) (g_il (s_g s))) as [[[g' l'] e']|] eqn:Hst; [|discriminate]. inv H.
     apply step_spec in Hst.
     destruct (g_il (s_g s)) as [p k] eqn:El.
     assert (Hi : ipc_ok (mkL p k)) by (rewrite <- El; apply (wf_ipc _ _ _ W); exact Hl).
     unfold J_inv in *. simpl. intros Hq. specialize (Jv Hq).
-    destruct (Step_running _ _ _ _ _ _ _ _ Hst) as [[n Hn] | [Hj | [Hx | (R1 & _)]]]; simpl in *;
+    destruct (Step_running _ _ _ _ _ _ _ _ _ Hst) as [[n Hn] | [Hj | [Hx | (R1 & _)]]]; simpl in *;
       try (subst p; unfold ipc_ok in Hi; simpl in Hi; contradiction).
     * subst p. inversion Hst; subst. simpl. exact Jv.
     * congruence.
@@ -394,7 +397,7 @@ Theorem shutdown_completes : forall s,
     (exists t x, is_pend_i (l_pc (s_l s t)) = true /\ sys_step s (LStep (U t) CRun) = Some x))).
 Proof.
   intros s Rs Hp Hk.
-  pose proof (reachable_wf absorb_n react ok smode emode s Rs) as W.
+  pose proof (reachable_wf false absorb_n react ok smode emode s Rs) as W.
   pose proof (reachable_S absorb_n react ok smode emode s Rs) as Sv.
   pose proof (reachable_J s Rs Hp) as Hr.
   assert (Hw : sh_wait (s_l s 0) = true) by (unfold sh_wait; rewrite Hp, Hk; reflexivity).
@@ -415,7 +418,7 @@ Qed.
 (* Messages queued before the thread is started are delivered once it starts: they stay queued, in order, ahead of
    everything sent later (fifo_no_overtaking), and a started thread with a non-empty queue is never stuck. *)
 Theorem queued_before_start_delivered : forall s s',
-  R s -> g_running (s_g s) = false -> steps_if absorb_n react ok s s' ->
+  R s -> g_running (s_g s) = false -> steps_if false absorb_n react ok s s' ->
   (exists got more,
      c_rcvd (g_ci (s_g s')) = c_rcvd (g_ci (s_g s)) ++ got /\
      got ++ c_q (g_ci (s_g s')) = c_q (g_ci (s_g s)) ++ more) /\
@@ -424,7 +427,7 @@ Theorem queued_before_start_delivered : forall s s',
    (exists t x, is_pend_i (l_pc (s_l s' t)) = true /\ sys_step s' (LStep (U t) CRun) = Some x)).
 Proof.
   intros s s' Rs _ St. split.
-  - destruct (fifo_no_overtaking absorb_n react ok smode emode s s' CI Rs St) as (got & more & A & _ & C).
+  - destruct (fifo_no_overtaking false absorb_n react ok smode emode s s' CI Rs St) as (got & more & A & _ & C).
     exists got, more. auto.
   - intros Hl Hq. apply internal_never_stuck; auto. eapply steps_reachable; eauto.
 Qed.
@@ -444,90 +447,42 @@ Qed.
 
 End Theorems.
 
-(* ---------- closed forms: one statement for both kinds of internal thread ---------- *)
-
-(* nothing is asked of the programs when InternalThreadEntry is the default one; the event-driven one needs
-   "only the owner sends to the internal thread" *)
-Definition mode_ok (ok : label -> bool) (evd : bool) : Prop :=
-  evd = false \/ forall lab, ok lab = true -> owner_sends_ci lab = true.
-
-Lemma mode_ok_hyp : forall ok evd, mode_ok ok evd -> evd = true -> forall lab, ok lab = true -> owner_sends_ci lab = true.
-Proof. intros ok evd [H | H] He; [congruence | exact H]. Qed.
+(* ---------- closed forms ---------- *)
 
 Section Final.
 Variable absorb_n : nat.
 Variable react : nat -> list msg * bool.
 
-Notation sys_step := (sys_step absorb_n react).
-Notation reachable_if := (reachable_if absorb_n react).
+(* StartInternalThread as repaired *)
+Notation sys_step := (sys_step false absorb_n react).
+Notation reachable_if := (reachable_if false absorb_n react).
 
 Theorem fifo_exactly_once : forall ok m e s c, reachable_if ok m e s ->
   c_sent (ch (s_g s) c) = c_rcvd (ch (s_g s) c) ++ c_q (ch (s_g s) c).
-Proof. intros ok m e s c H. exact (reachable_fifo absorb_n react ok m e s H c). Qed.
-
-Theorem T_no_lost_wakeup_internal : forall ok m e s, mode_ok ok e -> reachable_if ok m e s ->
-  g_ist (s_g s) = ILive ->
-  (exists w, l_pc (g_il (s_g s)) = PRecvPark CI w) \/ l_pc (g_il (s_g s)) = PIEvWait ->
-  c_q (g_ci (s_g s)) <> [] ->
-  readable (s_g s) CI = true \/ exists t, is_pend_i (l_pc (s_l s t)) = true.
-Proof. intros ok m e s M. apply no_lost_wakeup_internal. apply mode_ok_hyp; exact M. Qed.
-
-Theorem T_no_lost_wakeup_owner : forall ok m e s w, mode_ok ok e -> reachable_if ok m e s ->
-  l_pc (s_l s 0) = PRecvPark CO w -> c_q (g_co (s_g s)) <> [] ->
-  readable (s_g s) CO = true \/ (exists t, l_pc (s_l s t) = PSendSig CO true) \/
-  (g_ist (s_g s) = ILive /\ l_pc (g_il (s_g s)) = PSendSig CO true).
-Proof. intros ok m e s w M. apply no_lost_wakeup_owner. apply mode_ok_hyp; exact M. Qed.
-
-Theorem T_internal_never_stuck : forall ok m e s, mode_ok ok e -> reachable_if ok m e s ->
-  g_ist (s_g s) = ILive -> c_q (g_ci (s_g s)) <> [] ->
-  (exists x, sys_step s (LStep I CRun) = Some x) \/
-  (exists t x, is_pend_i (l_pc (s_l s t)) = true /\ sys_step s (LStep (U t) CRun) = Some x).
-Proof. intros ok m e s M. apply internal_never_stuck. apply mode_ok_hyp; exact M. Qed.
-
-Theorem T_owner_never_stuck : forall ok m e s w, mode_ok ok e -> reachable_if ok m e s ->
-  l_pc (s_l s 0) = PRecvPark CO w -> c_q (g_co (s_g s)) <> [] ->
-  (exists x, sys_step s (LStep (U 0) CRun) = Some x) \/
-  (exists t x, l_pc (s_l s t) = PSendSig CO true /\ sys_step s (LStep (U t) CRun) = Some x) \/
-  (l_pc (g_il (s_g s)) = PSendSig CO true /\ exists x, sys_step s (LStep I CRun) = Some x).
-Proof. intros ok m e s w M. apply owner_never_stuck. apply mode_ok_hyp; exact M. Qed.
-
-Theorem T_shutdown_completes : forall ok m e s, mode_ok ok e -> reachable_if ok m e s ->
-  l_pc (s_l s 0) = PJoinWait -> l_k (s_l s 0) = [KDiscard] ->
-  (g_ist (s_g s) = IExited /\ exists x, sys_step s (LStep (U 0) CRun) = Some x) \/
-  (g_ist (s_g s) = ILive /\
-   (In None (c_q (g_ci (s_g s))) \/ exiting (l_pc (g_il (s_g s))) = true) /\
-   ((exists x, sys_step s (LStep I CRun) = Some x) \/
-    (exists t x, is_pend_i (l_pc (s_l s t)) = true /\ sys_step s (LStep (U t) CRun) = Some x))).
-Proof. intros ok m e s M. apply shutdown_completes. apply mode_ok_hyp; exact M. Qed.
-
-Theorem T_queued_before_start_delivered : forall ok m e s s', mode_ok ok e -> reachable_if ok m e s ->
-  g_running (s_g s) = false -> steps_if absorb_n react ok s s' ->
-  (exists got more,
-     c_rcvd (g_ci (s_g s')) = c_rcvd (g_ci (s_g s)) ++ got /\
-     got ++ c_q (g_ci (s_g s')) = c_q (g_ci (s_g s)) ++ more) /\
-  (g_ist (s_g s') = ILive -> c_q (g_ci (s_g s')) <> [] ->
-   (exists x, sys_step s' (LStep I CRun) = Some x) \/
-   (exists t x, is_pend_i (l_pc (s_l s' t)) = true /\ sys_step s' (LStep (U t) CRun) = Some x)).
-Proof. intros ok m e s s' M. apply queued_before_start_delivered. apply mode_ok_hyp; exact M. Qed.
-
-Theorem T_stuck_only_when_nothing_to_receive : forall ok m e s, mode_ok ok e -> reachable_if ok m e s ->
-  (forall w c, sys_step s (LStep w c) = None) ->
-  (g_ist (s_g s) = ILive -> c_q (g_ci (s_g s)) = []) /\
-  (forall w, l_pc (s_l s 0) = PRecvPark CO w -> c_q (g_co (s_g s)) = []).
-Proof. intros ok m e s M. apply stuck_only_when_nothing_to_receive. apply mode_ok_hyp; exact M. Qed.
+Proof. intros ok m e s c H. exact (reachable_fifo false absorb_n react ok m e s H c). Qed.
 
 (* the life-cycle flags *)
 Theorem running_iff_thread_exists : forall ok m e s, reachable_if ok m e s ->
   g_running (s_g s) = negb (ist_none (g_ist (s_g s))) /\
   (g_ist (s_g s) = ILive -> g_sockets (s_g s) = true -> g_alloc (s_g s) = true /\ g_iopen (s_g s) = true).
 Proof.
-  intros ok m e s H. pose proof (reachable_wf absorb_n react ok m e s H) as W.
+  intros ok m e s H. pose proof (reachable_wf false absorb_n react ok m e s H) as W.
   split; [apply (wf_running _ _ _ W) | apply (wf_live_sock _ _ _ W)].
 Qed.
 
+End Final.
+
+Section Runs.
+Variable early : bool.
+Variable absorb_n : nat.
+Variable react : nat -> list msg * bool.
+
+Notation sys_step := (sys_step early absorb_n react).
+Notation reachable_if := (reachable_if early absorb_n react).
+
 (* ---- executable runs, for the witness and the examples ---- *)
 
-Lemma run_reachable : forall ok m e labs s s', forallb ok labs = true -> run absorb_n react s labs = Some s' ->
+Lemma run_reachable : forall ok m e labs s s', forallb ok labs = true -> run early absorb_n react s labs = Some s' ->
   reachable_if ok m e s -> reachable_if ok m e s'.
 Proof.
   intros ok m e labs. induction labs as [|lab r IH]; intros s s' Hok H Rs; simpl in *.
@@ -537,10 +492,10 @@ Proof.
     eapply IH; eauto. eapply reach_step; eauto.
 Qed.
 
-End Final.
+End Runs.
 
-(* Without the contract an event-driven internal thread can lose a wake-up: StartInternalThread reads
-   _messages.HasItems() before the socket pair exists; a Message that another thread appends right after that read is
+(* StartInternalThread as it was found ([early] = true): an event-driven internal thread can lose a wake-up.
+   StartInternalThread read _messages.HasItems() before the socket pair existed; a Message that another thread appends right after that read is
    signalled into the void (the pair is not allocated yet), the initial signal is not sent (needsInitialSignal was
    computed too early), and the new thread blocks on its wake-up socket for ever with the Message queued.
    The witness: owner: Start reads HasItems() = false | thread 1: SendMessageToInternalThread(7) completely |
@@ -552,13 +507,13 @@ Definition refute_labels : list label :=
     LStep I CRun; LStep I CRun; LStep I CRun; LStep I CRun; LStep I CRun ].
 
 Theorem evd_lost_wakeup_refuted : forall absorb_n react,
-  exists s, reachable absorb_n react true true s /\
+  exists s, reachable true absorb_n react true true s /\
     g_ist (s_g s) = ILive /\ l_pc (g_il (s_g s)) = PIEvWait /\ c_q (g_ci (s_g s)) = [Some 7] /\
     readable (s_g s) CI = false /\ (forall t, l_pc (s_l s t) = PIdle) /\
-    (forall w c, sys_step absorb_n react s (LStep w c) = None).
+    (forall w c, sys_step true absorb_n react s (LStep w c) = None).
 Proof.
   intros absorb_n react.
-  destruct (run absorb_n react (sys0 true true) refute_labels) as [s|] eqn:Hr; [|vm_compute in Hr; discriminate].
+  destruct (run true absorb_n react (sys0 true true) refute_labels) as [s|] eqn:Hr; [|vm_compute in Hr; discriminate].
   exists s. split.
   - eapply run_reachable; [|exact Hr | apply reach_init]. reflexivity.
   - vm_compute in Hr. inv Hr. simpl. repeat split; auto.
@@ -583,20 +538,21 @@ Qed.
 
 Definition react0 : nat -> list msg * bool := fun _ => ([], false).
 
-Definition start_labels : list label := [LBegin 0 OStart; LStep (U 0) CRun; LStep (U 0) CRun; LStep (U 0) CRun].
+Definition start_labels : list label :=
+  [LBegin 0 OStart; LStep (U 0) CRun; LStep (U 0) CRun; LStep (U 0) CRun; LStep (U 0) CRun; LStep (U 0) CRun].
 Definition int_park_labels : list label :=   (* the default internal thread runs into its blocking wait *)
   [LStep I CRun; LStep I CRun; LStep I CRun; LStep I CRun; LStep I CRun; LStep I CRun; LStep I CRun].
 
 Ltac by_run labs m e :=
   match goal with
-  | |- exists s, reachable_if ?a ?r ?ok ?mm ?ee s /\ _ =>
-      destruct (run a r (sys0 m e) labs) as [s|] eqn:Hr; [|vm_compute in Hr; discriminate];
+  | |- exists s, reachable_if ?ea ?a ?r ?ok ?mm ?ee s /\ _ =>
+      destruct (run ea a r (sys0 m e) labs) as [s|] eqn:Hr; [|vm_compute in Hr; discriminate];
       exists s; split; [eapply run_reachable; [|exact Hr | apply reach_init]; reflexivity |];
       vm_compute in Hr; inv Hr; simpl
   end.
 
 (* the internal thread is parked, a Message is queued, the sender has not signalled yet *)
-Example ex_internal_parked : forall n, exists s, reachable_if n react0 any_label true false s /\
+Example ex_internal_parked : forall n, exists s, reachable_if false n react0 any_label true false s /\
   g_ist (s_g s) = ILive /\ l_pc (g_il (s_g s)) = PRecvPark CI WNever /\ c_q (g_ci (s_g s)) = [Some 5] /\
   readable (s_g s) CI = false /\ l_pc (s_l s 1) = PSendSig CI true.
 Proof.
@@ -605,7 +561,7 @@ Proof.
 Qed.
 
 (* the same with the wait-condition *)
-Example ex_internal_parked_wc : forall n, exists s, reachable_if n react0 any_label false false s /\
+Example ex_internal_parked_wc : forall n, exists s, reachable_if false n react0 any_label false false s /\
   g_ist (s_g s) = ILive /\ l_pc (g_il (s_g s)) = PRecvPark CI WNever /\ c_q (g_ci (s_g s)) = [Some 5] /\
   readable (s_g s) CI = false /\ l_pc (s_l s 1) = PSendSig CI true.
 Proof.
@@ -614,7 +570,7 @@ Proof.
 Qed.
 
 (* the owner is parked on the reply queue, a reply is queued by another thread that has not signalled yet *)
-Example ex_owner_parked : forall n, exists s, reachable_if n react0 any_label true false s /\
+Example ex_owner_parked : forall n, exists s, reachable_if false n react0 any_label true false s /\
   l_pc (s_l s 0) = PRecvPark CO WNever /\ c_q (g_co (s_g s)) = [Some 9] /\ l_pc (s_l s 1) = PSendSig CO true.
 Proof.
   intros n.
@@ -624,7 +580,7 @@ Proof.
 Qed.
 
 (* the owner waits in the join of ShutdownInternalThread(true) while the NULL Message is still queued *)
-Example ex_shutdown_waiting : forall n, exists s, reachable_if n react0 any_label true false s /\
+Example ex_shutdown_waiting : forall n, exists s, reachable_if false n react0 any_label true false s /\
   l_pc (s_l s 0) = PJoinWait /\ l_k (s_l s 0) = [KDiscard] /\ g_ist (s_g s) = ILive /\ c_q (g_ci (s_g s)) = [None].
 Proof.
   intros n.
@@ -633,7 +589,7 @@ Proof.
 Qed.
 
 (* ... and after the internal thread has left *)
-Example ex_shutdown_exited : forall n, exists s, reachable_if n react0 any_label true false s /\
+Example ex_shutdown_exited : forall n, exists s, reachable_if false n react0 any_label true false s /\
   l_pc (s_l s 0) = PJoinWait /\ l_k (s_l s 0) = [KDiscard] /\ g_ist (s_g s) = IExited.
 Proof.
   intros n.
@@ -643,7 +599,7 @@ Proof.
 Qed.
 
 (* Messages queued while the thread is not running (their signal was dropped: no socket pair yet) *)
-Example ex_queued_before_start : forall n, exists s, reachable_if n react0 any_label true false s /\
+Example ex_queued_before_start : forall n, exists s, reachable_if false n react0 any_label true false s /\
   g_running (s_g s) = false /\ c_q (g_ci (s_g s)) = [Some 1; Some 2] /\ c_sig (g_ci (s_g s)) = 0 /\ g_alloc (s_g s) = false.
 Proof.
   intros n.
@@ -651,11 +607,11 @@ Proof.
   repeat split; reflexivity.
 Qed.
 
-(* the event-driven thread is blocked in its select() with a Message queued before the start: only
-   StartInternalThread's initial signal, still to be sent, will wake it *)
-Example ex_evd_parked : forall n, exists s, reachable_if n react0 owner_sends_ci true true s /\
+(* the event-driven thread is blocked in its select() with a Message queued before the start (its signal was dropped):
+   only StartInternalThread, which has yet to look at the queue, will wake it *)
+Example ex_evd_parked : forall n, exists s, reachable_if false n react0 any_label true true s /\
   g_ist (s_g s) = ILive /\ l_pc (g_il (s_g s)) = PIEvWait /\ c_q (g_ci (s_g s)) = [Some 3] /\
-  readable (s_g s) CI = false /\ l_pc (s_l s 0) = PStartSig true.
+  readable (s_g s) CI = false /\ l_pc (s_l s 0) = PStartSpawned.
 Proof.
   intros n.
   by_run [LBegin 0 (OSend CI (Some 3)); LStep (U 0) CRun; LStep (U 0) CRun;
@@ -664,15 +620,24 @@ Proof.
   repeat split; reflexivity.
 Qed.
 
+(* the schedule that lost the wake-up before the repair (refute_labels), on the repaired order: the owner finds the
+   Message under the lock and signals; the event-driven thread's select() is satisfiable *)
+Example ex_race_repaired : forall n, exists s, reachable_if false n react0 any_label true true s /\
+  g_ist (s_g s) = ILive /\ l_pc (g_il (s_g s)) = PIEvWait /\ c_q (g_ci (s_g s)) = [Some 7] /\
+  readable (s_g s) CI = true.
+Proof.
+  intros n.
+  by_run [LBegin 0 OStart; LStep (U 0) CRun;
+          LBegin 1 (OSend CI (Some 7)); LStep (U 1) CRun; LStep (U 1) CRun;
+          LStep (U 0) CRun; LStep (U 0) CRun; LStep (U 0) CRun; LStep (U 0) CRun;
+          LStep I CRun; LStep I CRun; LStep I CRun; LStep I CRun; LStep I CRun] true true.
+  repeat split; reflexivity.
+Qed.
+
 (* a state in which nothing can move *)
-Example ex_stuck : forall n, exists s, reachable_if n react0 any_label true false s /\
-  (forall w c, sys_step n react0 s (LStep w c) = None).
+Example ex_stuck : forall n, exists s, reachable_if false n react0 any_label true false s /\
+  (forall w c, sys_step false n react0 s (LStep w c) = None).
 Proof.
   intros n. exists (sys0 true false). split; [apply reach_init|]. intros [t|] []; reflexivity.
 Qed.
 
-Example ex_mode_ok_default : mode_ok any_label false.
-Proof. left. reflexivity. Qed.
-
-Example ex_mode_ok_evd : mode_ok owner_sends_ci true.
-Proof. right. auto. Qed.
